@@ -89,7 +89,4 @@ def run(chk):
 
 def replay(chk, path):
     case = json.load(open(path))
-    soup, o = D.observe_doc(case['input'], case.get('skip_envs', ()))
-    if soup is not None and 'query' in case and isinstance(case['query'], str):
-        print(json.dumps({'query': case['query'], 'positions': sorted(n.position for n in soup.find_all(case['query']))}))
-    return 0
+    return D.replay_case(chk, case, 'C03-find_all')
